@@ -96,8 +96,14 @@ class DBusClientConnection (txdbus.protocol.BasicDBusProtocol):
         """
         Called when the transport loses connection to the bus
         """
-        if self.busName is None:
+        if not self._authenticated:
+            # Lost before (or because) authentication completed: nothing
+            # else will ever fire the factory's Deferred
+            self.factory._failed(reason)
             return
+
+        # If the Hello call is still outstanding, failing it below fails
+        # the factory's Deferred
 
         for cb in self._dcCallbacks:
             cb(self, reason)
